@@ -56,6 +56,7 @@ type Case struct {
 	Proxied   bool   `json:"proxied"`    // the service is a backend registered with RegisterConn
 	Meta      bool   `json:"meta"`       // the handler sets header and trailer metadata
 	RawReply  bool   `json:"raw_reply"`  // unary/server shapes: the method replies with google.api.HttpBody (raw bytes on HTTP)
+	Encoding  string `json:"encoding"`    // gRPC / gRPC-web: grpc-encoding of the request ("" | identity | gzip)
 	StrayBody string `json:"stray_body"` // httpget: body sent although the binding maps none ("" = none; a leading "~" = unknown length)
 }
 
@@ -415,7 +416,10 @@ func execute(c Case, unaryInt, streamInt, withStats bool, behaviour string) (run
 	case "grpc", "grpcweb":
 		for _, n := range c.Sizes {
 			b, _ := proto.Marshal(msgOfSize(w, n))
-			body.Write(drive.GRPCFrame(b, false))
+			body.Write(drive.GRPCFrame(b, c.Encoding == "gzip"))
+		}
+		if c.Encoding != "" {
+			hdr.Set("Grpc-Encoding", c.Encoding)
 		}
 		if c.Transport == "grpc" {
 			req = drive.GRPCRequest(mOf(c), hdr, bytes.NewReader(body.Bytes()), "application/grpc")
@@ -502,7 +506,17 @@ func Check(c Case) []evid.Violation {
 			return fail("interceptor-result", "replaced-error-not-seen", "HTTP status %d, want 403 from the interceptor's error", got.status)
 		}
 	case c.Behaviour == "replace-reply":
-		if unaryMethod && c.FailAfter < 0 && !strings.Contains(got.body, "sssss") {
+		plain := got.body
+		if c.Encoding == "gzip" {
+			// replies travel compressed: look at the inflated frames
+			if frames, err := drive.ParseFrames([]byte(got.body)); err == nil {
+				plain = ""
+				for _, f := range frames {
+					plain += string(f.Payload)
+				}
+			}
+		}
+		if unaryMethod && c.FailAfter < 0 && !strings.Contains(plain, "sssss") {
 			return fail("interceptor-result", "replaced-reply-not-seen", "client does not see the interceptor's reply: %q", got.body)
 		}
 	}
@@ -614,6 +628,9 @@ func genCase(t *rapid.T) Case {
 	c.Stats = rapid.Bool().Draw(t, "stats")
 	c.Behaviour = rapid.SampledFrom([]string{"pass", "pass", "replace-reply", "replace-error", "context"}).Draw(t, "behaviour")
 	c.Meta = rapid.Bool().Draw(t, "meta")
+	if c.Transport == "grpc" || c.Transport == "grpcweb" {
+		c.Encoding = rapid.SampledFrom([]string{"", "", "identity", "gzip"}).Draw(t, "encoding")
+	}
 	if (c.Shape == "unary" || c.Shape == "server") && c.Behaviour != "replace-reply" {
 		c.RawReply = rapid.IntRange(0, 3).Draw(t, "rawReply") == 0
 	}
@@ -638,6 +655,9 @@ func TestProp(t *testing.T) {
 		}
 		if c.RawReply {
 			cl = append(cl, "httpbody-reply")
+		}
+		if c.Encoding != "" {
+			cl = append(cl, "grpc-encoding="+c.Encoding)
 		}
 		key := ""
 		if anyOpt && (c.Shape != "unary" || c.FailAfter >= 0 || small) {
